@@ -9,14 +9,18 @@
                         node before it, instead of only with an adjacent data node;
      origin_last     : key_origin records the LAST creator of a key, not the first;
      deleted_at_entry: the "requires a deleted key" check looks at the keys deleted BEFORE the node
-                        (instead of the set after the node's own suppression, minus its own keys).
+                        (instead of the set after the node's own suppression, minus its own keys);
+     default_second_pass : after the node loop, a parameter classified 'default' whose name is one of
+                        the required context keys (another node requires it from the initial context)
+                        and was not deleted before the node is re-classified as 'initial context'.
    Definitions only. *)
 From Coq Require Import List String ZArith Bool Arith.
 From SV Require Import Common.Prelude Model.Pipeline.
 Import ListNotations.
 Open Scope string_scope.
 
-Record variant := mkVariant { order_sensitive : bool; track_last_data : bool; origin_last : bool; deleted_at_entry : bool }.
+Record variant := mkVariant { order_sensitive : bool; track_last_data : bool; origin_last : bool; deleted_at_entry : bool;
+                              default_second_pass : bool }.
 
 Definition inode := (node * dtype)%type.       (* node, declared output type (ignored for context processors) *)
 
@@ -117,13 +121,26 @@ Definition inspect_node (v : variant) (idx : nat) (x : inode) (st : istate) : nr
        mkIState ko2 del2 (sunion (all_required st) new_required) (sunion (all_created st) created))
   end.
 
+(* the second pass over default-classified parameters (builder.py, after the node loop): [req] is the
+   final set of required context keys, [del_entry] the keys deleted before the node *)
+Definition reclass (req del_entry : list string) (p : string * origin) : string * origin :=
+  match snd p with
+  | ODefault => if smem (fst p) req && negb (smem (fst p) del_entry) then (fst p, OContext None) else p
+  | _ => p
+  end.
+Definition shadow (v : variant) (req del_entry : list string) (r : nreport) : nreport :=
+  if default_second_pass v then
+    mkNReport (r_invalid r) (r_invalid_params r) (map (reclass req del_entry) (r_origins r))
+              (r_created r) (r_suppressed r) (r_in r) (r_out r) (r_errors r)
+  else r.
+
 Fixpoint inspect_from (v : variant) (idx : nat) (p : list inode) (st : istate) : list nreport * istate :=
   match p with
   | [] => ([], st)
   | x :: tl =>
       let '(r, st') := inspect_node v idx x st in
       let '(rs, stf) := inspect_from v (S idx) tl st' in
-      (r :: rs, stf)
+      (shadow v (all_required stf) (deleted st) r :: rs, stf)
   end.
 
 Definition init_state : istate := mkIState [] [] [] [].
